@@ -202,6 +202,28 @@ func (c *FnVC) applyContract(x *ssa.Call, ct *Contract, f *ssa.Function, sig *ty
 			c.assume(imp(c.reach[b], t))
 		}
 	}
+	// explicit panics of the callee: a `maypanic` callee may panic on any call, a
+	// `panics_when E` callee exactly when E holds at the call; a caller that promises
+	// panic-freedom must exclude both (or allow them through its own panics_when)
+	if c.ct != nil && !c.ct.MayPanic && !c.ct.Abstract {
+		allowed := "false"
+		if c.ct.PanicsWhen != nil {
+			ev0 := c.newEval(c.fn, c.paramEnv(), c.entry, nil)
+			if t, err := ev0.boolExpr(c.ct.PanicsWhen.Expr); err == nil {
+				allowed = t
+			}
+		}
+		if ct.MayPanic {
+			c.obligeNamed("callpanic", fmt.Sprintf("callpanic@%s", tag), allowed, c.reach[b], "callee may panic (its contract says maypanic): "+name+" "+c.srcAt(x.Pos()), nil).Pos = x.Pos()
+		} else if ct.PanicsWhen != nil {
+			if t, err := pre.boolExpr(ct.PanicsWhen.Expr); err != nil {
+				c.errorf("%s: panics_when of %s: %v", c.fnName(), name, err)
+			} else {
+				c.obligeNamed("callpanic", fmt.Sprintf("callpanic@%s", tag), or(not(t), allowed), c.reach[b], "callee panics when "+ct.PanicsWhen.Text+": "+name+" "+c.srcAt(x.Pos()), nil).Pos = x.Pos()
+				c.assume(imp(c.reach[b], not(t))) // the call returned
+			}
+		}
+	}
 	// at-call assertions of the caller's contract
 	c.atAsserts(x, name, tag, args, atys)
 	// effect
